@@ -469,6 +469,9 @@ func (m *sim) apply(s *scriptScn, idx int, a act, r actRes, results []actRes) {
 			}
 			sd.mapped[a.ID] = true
 		}
+	case "deadline":
+		m.ev(i, fmt.Sprintf("(EvDeadline %s %s)", coqfmt.N(uint64(a.ID)), []string{"DBoth", "DRead", "DWrite"}[a.Mode%3]), obsOf(r, true))
+		m.note(i, "Set*Deadline", r)
 	case "staleclose":
 		m.ev(i, fmt.Sprintf("(EvStaleClose %s)", coqfmt.N(uint64(a.ID))), obsOf(r, true))
 		m.note(i, "Close of a stale handle", r)
